@@ -1,0 +1,15 @@
+//go:build verif
+
+package tables
+
+// Contracts for contract-based deductive verification (comment-only; see /verif/DESIGN.md).
+// Property C09: parsing never panics. Functions here are the ones the zero-annotation sweep cannot decide alone:
+// they need a loop invariant (tag C09c: verified in contract mode, parameters otherwise arbitrary).
+//
+// parsePoints: every index into src and sg.Points is in range for arbitrary glyph data. The consistency between
+// the flags and the coordinate data consumed by parseGlyphContourPoints (a sum over the flags) is not covered.
+//@ func SimpleGlyph.parsePoints C09c
+//@   mode int
+//@   modifies unspecified
+//@   loop 1 invariant [shape] len(sg.Points) == numPoints && 1 <= numPoints && numPoints <= 65536 && 0 <= i && i <= numPoints && 0 <= cursor && cursor <= L && L == len(src)
+//@   loop 1 invariant [lengths] 0 <= coordinatesLengthX && coordinatesLengthX <= 2*i && 0 <= coordinatesLengthY && coordinatesLengthY <= 2*i
